@@ -1,9 +1,12 @@
 package main
 
 import (
+	"encoding/json"
 	"fmt"
 	"os"
+	"os/exec"
 	"path/filepath"
+	"strings"
 )
 
 func cmdReplay(args []string) int {
@@ -17,6 +20,21 @@ func cmdReplay(args []string) int {
 		return 2
 	}
 	fmt.Println(string(data))
+	// a record that carries a reproduced counterexample is run again against the real code
+	var rec map[string]interface{}
+	if json.Unmarshal(data, &rec) == nil {
+		if cmd, ok := rec["replay_cmd"].(string); ok && cmd != "" {
+			fmt.Println("--- running:", cmd)
+			c := exec.Command("/bin/sh", "-c", cmd)
+			c.Env = append(os.Environ(), "GOFLAGS=-mod=mod", "GOPROXY=off", "GOSUMDB=off", "GOTOOLCHAIN=local")
+			out, _ := c.CombinedOutput()
+			fmt.Println(string(out))
+			if strings.Contains(string(out), "REPLAY-VIOLATION") {
+				return 1
+			}
+			return 0
+		}
+	}
 	return 0
 }
 
@@ -42,15 +60,6 @@ func (p *Program) loadLibs() error {
 		}
 	}
 	return nil
-}
-
-// replay turns a counterexample into a run of the real code when a replay recipe exists.
-func (p *Program) replay(dir string, o *Obligation, it *OblResult, model, reason string) (string, bool) {
-	path := writeReplayFile(dir, o, it, reason)
-	if model != "" {
-		os.WriteFile(path+".model.txt", []byte(model), 0o644)
-	}
-	return path, false
 }
 
 func (p *Program) addBounded(id, tier string, cov map[string]interface{}, violations *int) {}
